@@ -6,7 +6,8 @@
      q        : observed critical pairs are in units of 1/q tick
      cps      : observed critical_pairs, per depth a list of [x, y] in 1/q ticks ; lattice = 0 if some value is off the lattice
      events   : hook events as [name, a, b, c] in ticks ; hook = 0 when no hook events were recorded
-     hookfired: 0/1 , the hook's own shortcut_fired flag (-1 without hook)                               *)
+     hookfired: 0/1 , the hook's own shortcut_fired flag (-1 without hook)
+     returned : 1 when the constructor returned a landscape (only read when hom_deg names no diagram)   *)
 EXTENDS SweepCore, Json, IOUtils, TLCExt
 Cases == JsonDeserialize(IOEnv.TRACE_FILE)
 VARIABLE k
@@ -20,7 +21,12 @@ Lo(bs, cps) == Min({bs[i][1] : i \in 1..Len(bs)} \cup UNION {{cps[kk][j][1] : j 
 Hi(bs, cps) == Max({bs[i][2] : i \in 1..Len(bs)} \cup UNION {{cps[kk][j][1] : j \in 1..Len(cps[kk])} : kk \in 1..Len(cps)} ) + 1
 ScaleCps(cps, q) == [kk \in 1..Len(cps) |-> [j \in 1..Len(cps[kk]) |-> <<cps[kk][j][1] * q, cps[kk][j][2] * q>>]]
 
+\* a requested degree for which the caller supplied no diagram (hom_deg >= number of diagrams): there is no "selected diagram", so no
+\* landscape may come back -- in particular not the landscape of some OTHER degree's diagram (returned = 1: the constructor returned one)
+AbsentVerdict(c) == IF c.returned = 1 THEN <<"fail", "landscape-returned-for-a-degree-without-diagram", FALSE, "nohook", "unknown">>
+                    ELSE <<"ok", "", FALSE, "nohook", "ok">>
 Verdict(c) ==
+  IF c.hom_deg >= Len(c.dgms) THEN AbsentVerdict(c) ELSE
   LET bars  == Bars(c)
       run   == RunAll(InitSt(bars), <<>>, TRUE)
       fired == run[1].fired
